@@ -7,22 +7,24 @@ _REPLICA = dict(check_module="Determinism.Check", check_fn="check_replicas", cas
 
 
 def _classify(line, r):
-    """classification key of a violation: computed from what differs, never from the property id"""
+    """classification key of a violation: computed from what differs, never from the property id.
+    The key is also part of the replay file's name, so it contains no '/' or blanks."""
     hist = line.get("history") or {}
     if hist.get("Mode") == "static":
         steps = hist.get("Steps") or []
         i = r[1]
         if 0 <= i < len(steps):
             s = steps[i]
-            return "static/%s/%s#%d" % (s.get("sk", "?"), re.sub(r"\s+", "", s.get("fn", "?")), s.get("ord", 0))
-        return "static/unknown"
+            fn = re.sub(r"[^A-Za-z0-9_.$#]+", "_", s.get("fn", "?")).strip("_")
+            return "static.%s.%s.%d" % (s.get("sk", "?"), fn, s.get("ord", 0))
+        return "static.unknown"
     what = "unknown"
     for s in line.get("steps") or []:
         m = re.match(r"DIFF at observation block \d+: (.*?)  \|A\|", s)
         if m:
             what = re.sub(r"[^A-Za-z0-9_.]+", "-", m.group(1)).strip("-")
             break
-    return "replica/%s/%s" % (hist.get("Mode", "?"), what)
+    return "replica.%s.%s" % (hist.get("Mode", "?"), what)
 
 
 PROPS["C11"] = dict(
